@@ -48,6 +48,11 @@ FINDING_TEXTS = {
     "bputTPoss": (b'#include "axllib"\nimport from SingleInteger;g3:SingleInteger:=1;g3:=with\n', []),
     "ptrlistFreeDeeplyTo": (b'#include "axllib"\nR1==>Record();R2==>(f1:SI,f3:Boolean);import from()R1 R2;'
                             b'f12(p13:R0,p14:SI):SI=={([]);v17:R1:=([](())())}\n', []),
+    "symeExtensionFirst": (b'#include "axllib"\nCatA:Category{{(if false then())}}PD0(T:CatA):CatB=={(())}\n', []),
+    "empty-export-message": (b'#include "axllib"\ndefine Ex0: Category == Exception with;\n'
+                             b'define Ex0 : Ex0 @ Category == add add ;\n', []),
+    "gen0PatchEEltFormats": (b'#include "foamlib"\n#pile\n\nimport { foo: MachineInteger -> () } from Foreign C("foo.h")\n\n'
+                             b'import from MachineInteger\nfoo(2) pretend MachineInteger\n', ci.FOAMLIB_ARGS),
     "foamAuditBadRef": (b'#include "axllib"\nSI==>SingleInteger;BI==>{op4:()->SI;()}DA1==add{op4():SI==((16quo 10)@SI);op5==(false)}'
                         b'g10:Array(SI):=(new(1@SI,(op4()$DA1))@Array(SI));f14(p15:BI):SI=={if(true)then{if true then{}{(add)}'
                         b'if true then{()}{()}if true then{()}{()}}if(9223372036854775807>1@SI)then{if false then{}{()}}'
@@ -55,7 +60,7 @@ FINDING_TEXTS = {
 }
 
 TIME_BOUND = {"known": 5, "enum": 3, "random": 10, "dirs": 10, "mutant": 30, "stress": 120}
-VLIMIT_KB = {"known": 1000000, "enum": 200000, "random": 1000000, "dirs": 1000000, "mutant": 3000000, "stress": 3000000}
+VLIMIT_KB = {"known": 1000000, "enum": 64000, "random": 1000000, "dirs": 1000000, "mutant": 3000000, "stress": 3000000}
 MAX_REPORT = 25
 
 
@@ -213,6 +218,11 @@ def report(chk, build, rejected, stats, tier="quick", asan=False, hooks=True):
                     x[2]["site"] = s2
         stats["gdb_runs"] = stats.get("gdb_runs", 0) + len(todo) + len(rest)
 
+    # --- an error that was counted but not printed (exit != 0 without an error line): who reported it
+    for r, v, k in keyed:
+        if k["kind"] == "dishonest-exit" and k.get("exit") == 1 and not asan:
+            k["site"] = cr.error_site(build, r.inp)
+
     def known(key):
         return any(f.get("status") == "open" and vlib.finding_matches(f, key) for f in chk.findings)
     # --- a hang (or a death by an unexplained signal) that is not a known finding is re-run with ten times the time
@@ -304,16 +314,16 @@ def run(chk, tier):
         stride, cstride, maxq, dirlen, nrandom = 17, 500, 1, 3, 1500
     else:
         enum_parts = [(5, [1]), (4, [2, 3])]
-        stride, cstride, maxq, dirlen, nrandom = 3, 60, 6, 4, 30000
+        stride, cstride, maxq, dirlen, nrandom = 5, 300, 3, 4, 30000
     if only and "enum" not in only:
-        enum_parts = [(2, [1])]
+        enum_parts = [(2, [1, 2])]
     # The TLC runs that produce the families start together; every family is compiled and judged as soon as its
     # inputs exist (the mutants, whose TLC run is the longest, come last).
     t = time.time()
     ex = ThreadPoolExecutor(max_workers=6)
     texts = ci.valid_texts(tier, chk.seed)
     mseed = 0 if tier == "quick" else chk.seed % 1000
-    f_mut = ex.submit(ci.mutant_family, chk, d, texts, stride, cstride, mseed, maxq, 6 if tier == "quick" else 12)
+    f_mut = ex.submit(ci.mutant_family, chk, d, texts, stride, cstride, mseed, maxq, 9 if tier == "quick" else 14)
     f_enum = ex.submit(ci.enum_family, chk, d, enum_parts, 10 if tier == "quick" else 14)
     f_dirs = ex.submit(ci.dirs_family, chk, d, dirlen)
     f_stress = ex.submit(ci.stress_family, chk, d)
@@ -486,5 +496,48 @@ def selftest():
 
 
 SELFTEST_NOTES = """
-(to be filled in)
+Binding demonstration (2026-10-04).  Mutations applied one at a time in a scratch `git worktree` of /repo (/tmp/wt-c07mut, removed
+afterwards), compiler built by vlib.vbuild via VERIF_SRC, check run as `C07_ONLY=dirs bin/verif check C07 --tier quick`, i.e. a strict
+subset of the quick tier (class strings of length <= 2 in variants 1,2; all 2 955 directive soups; the known-finding texts; 20 texts of
+each other family) -- what this subset catches the quick tier catches.  The machine was shared with 14 other builders (load 100-300).
+
+ M1 axlcomp.c:compFilesLoop   `return totErrors` -> `return 0`                       CAUGHT: 20+ VIOLATION lines, e.g.
+      "protocol on enum input b'1=': exit 0, 1 error line(s) -- TLC: stuck NotABehaviour" (Exit(0) after a printed error is no
+      step of Driver) and dishonest-exit (HonestExit) on the blind observations
+ M2 scan.c:scanTokenCases     a non-printable byte is skipped instead of scanError()  CAUGHT: 8 x "no-diagnostic on enum input
+      b'\\xe9' ...: exit 0, 0 error line(s) -- TLC: invariant InvalidDiagnosed" (Scan.tla certifies an error token)
+ M3 scan.c:scanString         unterminated string returns tokString, not the error token
+      NOT caught by the first version (every text was compiled with -Fao: without a library `"a` then fails in tinfer with
+      "no meaning for string literal", which is a diagnostic).  This changed the check: class-string variants 2,3 and the directive
+      soups are now compiled with -Fap (syntactic phases only).  Re-run: CAUGHT (see the line for M3 below).
+ M4 include.c:inclLine        no "End of file in #if" error                           CAUGHT: 20+ x "no-diagnostic on dirs input
+      b'#assert t\\n#if t\\n': exit 0 ... InvalidDiagnosed" (Directives.tla certifies if-balance)
+ M5 parseby.c:yyerrorfn       ALDOR_E_SyntaxNoRecovery reported as a warning           CAUGHT: 84 x "fault:program-fault ... site
+      abnorm.c:abnorm" (the driver goes on with the failed parse; Total)
+ M3 (re-run after the -Fap change): see RESULT_M3 in the final report of the builder.
+
+Inverse experiment: with hooks/fix-C07-{lone-hash-eof-hang,keyix-negative-index,nul-byte-cuts-line,exit-status-wrap,quit-in-batch}.diff
+applied (worktree /tmp/wt-c07fix, VERIF_SRC) the five scanner/driver findings disappear from the same run: no hang, no keyTag fault,
+no NUL no-diagnostic, 256 errors exit 255, #quit only warns; the KNOWN-FINDING lines that remain are the five parser/type-checker
+crash sites reached by mutants (abDefineeId, bputTPoss, ptrlistFreeDeeplyTo, foamAuditBadRef, gen0PatchEEltFormats).
+That run also exposed a harness defect (exit status 255 read as "signal 127"), fixed: a status 129..159 counts as a signal only if
+the process did not emit its Exit event.
+
+Recorded-event corruption (checks.c07.selftest(): two accepted runs, `-- nothing` and `"abc`, one field changed each; all rejected):
+ Observed exit 0->1 / error lines 0->2            invariant HonestExit
+ Observed fault ''->'bug', timeout, signal 11     stuck (no action matches: Fault / Hang)
+ Observed cert [] -> [errtok] on the valid run    invariant InvalidDiagnosed
+ invalid run: exit 1->0                           invariants CompleteOnSuccess + HonestExit
+ invalid run: error lines -> 0                    invariants HonestExit + InvalidDiagnosed
+ Exit event dropped / Exit status changed         stuck at Observed / at Exit
+ last PhEnd dropped                               stuck at FileEnd
+ Msg error inserted before the output             stuck at OutOpen(ao) (code output after an error)
+
+Model corrections made during development (not findings):
+ * Scan.tla takes a system-command line literally; scan.c:scanSysCommand processes escapes there (`#_<newline>"` continues the
+   command onto the next line).  SrcText!Faithful now withholds every certificate from a text with an escape on a `#` line.
+ * `-continue` prints the whole behaviour for each invariant violation; with ~10 % of 35 000 runs violating InvalidDiagnosed a
+   batch took minutes.  The Observed step now evaluates the invariants itself in the successor state and prints JUDGED.
+ * error lines: the compiler glues osDisplayMessage text in front of '#1 (Error) Program fault', so the pattern is not anchored at
+   the line start; echoed source lines are removed first so that the text of an input cannot fake an error line.
 """
